@@ -28,6 +28,7 @@ import (
 	"github.com/openGemini/openGemini/lib/record"
 	"github.com/openGemini/openGemini/lib/statisticsPusher/statistics"
 	"github.com/openGemini/openGemini/lib/util/lifted/vm/protoparser/influx"
+	"github.com/openGemini/openGemini/lib/verifhook"
 	"github.com/pingcap/failpoint"
 )
 
@@ -150,12 +151,15 @@ func (storage *tsstoreImpl) writeSnapshot(s *shard) {
 		atomic.StoreUint32(&s.SnapShotter.RaftFlag, 1)
 	}
 	s.snapshotLock.Unlock()
+	verifhook.Point("flush-after-wal-switch")
 
 	start := time.Now()
 	s.indexBuilder.Flush()
+	verifhook.Point("flush-after-index-flush")
 
 	s.commitSnapshot(s.snapshotTbl)
 	nodeMutableLimit.freeResource(curSize)
+	verifhook.Point("flush-after-commit")
 
 	err = RemoveWalFiles(walFiles)
 	if err != nil {
@@ -167,6 +171,7 @@ func (storage *tsstoreImpl) writeSnapshot(s *shard) {
 		time.Sleep(2 * time.Second)
 	})
 
+	verifhook.Point("flush-before-snapshot-release")
 	s.snapshotLock.Lock()
 	s.snapshotTbl.UnRef()
 	s.snapshotTbl = nil
